@@ -354,7 +354,8 @@ def lint_trace(lines, path):
             raise Infra("trace %s line %d contains JSON null" % (path, i + 1))
         for m in _num.finditer(l):
             # inside a string? cheap test: count quotes before the match
-            if l[:m.start()].count('"') % 2 == 0 and abs(int(m.group())) >= 2 ** 31:
+            pre = l[:m.start()]
+            if (pre.count('"') - pre.count('\\"')) % 2 == 0 and abs(int(m.group())) >= 2 ** 31:
                 raise Infra("trace %s line %d carries a number >= 2^31 as a JSON number" % (path, i + 1))
 
 
